@@ -61,6 +61,7 @@ var cfgValues = map[string]map[string]string{
 
 type installStep struct {
 	A           string                         `json:"a"`
+	Cmd         string                         `json:"cmd"` // implicit: the command that installs the hooks on its way
 	Sc          string                         `json:"sc"` // the scope the command names: global (no flag) | local | worktree
 	Force       bool                           `json:"force"`
 	Skip        bool                           `json:"skip"`
@@ -231,11 +232,26 @@ func replayInstall(c *core.Ctx, lfsBin string, b *installBehaviour, idx int) (*c
 			}
 		case "uninstall":
 			args = []string{"uninstall"}
+		case "implicit":
+			switch s.Cmd {
+			case "track":
+				args = []string{"track", "*.zzz"}
+			case "untrack":
+				args = []string{"untrack", "*.zzz"}
+			case "clean":
+				args = []string{"clean", "x.zzz"}
+			case "fsck":
+				args = []string{"fsck", "--pointers"}
+			}
 		}
-		if s.A != "update" && s.Sc != "global" {
+		if s.A != "update" && s.A != "implicit" && s.Sc != "global" {
 			args = append(args, "--"+s.Sc)
 		}
-		r := env.RunIn(repo, nil, nil, 60*time.Second, "git-lfs", args...)
+		var stdin []byte
+		if s.A == "implicit" && s.Cmd == "clean" {
+			stdin = []byte("some content to clean\n")
+		}
+		r := env.RunIn(repo, nil, stdin, 60*time.Second, "git-lfs", args...)
 		cmds = append(cmds, fmt.Sprintf("git lfs %s -> exit %d", strings.Join(args, " "), r.Code))
 		curH, curC := snapshot()
 		mk := func(assertion, why string) *core.Violation {
@@ -270,7 +286,7 @@ func replayInstall(c *core.Ctx, lfsBin string, b *installBehaviour, idx int) (*c
 		}
 		// a command reads and writes only the scope it names
 		for _, sc := range scopes {
-			if sc == s.Sc && s.A != "update" {
+			if sc == s.Sc && s.A != "update" && s.A != "implicit" {
 				continue
 			}
 			for _, k := range keys {
@@ -319,6 +335,7 @@ func replayInstall(c *core.Ctx, lfsBin string, b *installBehaviour, idx int) (*c
 		for _, h := range hooks {
 			if !inList(s.HookAllowed[h], curH[h]) {
 				c.AddInt("drift_hook_class", 1)
+				c.AddInt("drift_hook_class_"+s.A+s.Cmd, 1)
 			}
 		}
 		for _, sc := range scopes {
@@ -362,7 +379,7 @@ func init() {
 			b.hash = f.Sum64()
 			var k []string
 			for _, s := range b.Steps {
-				k = append(k, fmt.Sprintf("%s/%s/%v/%v/%v", s.A, s.Sc, s.Force, s.Skip, s.Conflict))
+				k = append(k, fmt.Sprintf("%s%s/%s/%v/%v/%v", s.A, s.Cmd, s.Sc, s.Force, s.Skip, s.Conflict))
 			}
 			// initial state up to renaming: which classes occur, and for configuration values whether
 			// they sit in the scope the first command names or in another one
